@@ -24,6 +24,7 @@ type Run struct {
 	Bounds  map[string]interface{}
 	Tier    string // "" = both tiers; "thorough" = thorough only; "quick" = quick only
 	Setup   func(ex *eng.Explorer, tier string)
+	GlobalWriteMonitor bool // stores to package-level state (outside sync.Once / a held mutex) by code of the repository are violations (C11)
 	PoisonOptional bool // an inconclusive result that is only due to reads of poisoned memory is downgraded to a note (a companion run carries the bounded claim)
 }
 
@@ -88,6 +89,8 @@ type checkCtx struct {
 	extraSamples []interface{}
 	extraSolverS float64
 	validated int
+	monitored int
+	monitorViol []string
 	violTotal int
 	expected map[string]bool
 	reached map[string]int
@@ -253,6 +256,26 @@ func runCheck(id, tier string) int {
 				exp = map[string]bool{}
 			}
 		}
+		if r.GlobalWriteMonitor {
+			var bad []string
+			for w := range ex.GlobalWrites {
+				i := strings.Index(w, " written by ")
+				writer := w[i+12:]
+				if strings.Contains(writer, "/zzverif/") || strings.Contains(writer, ".ZZ") || strings.Contains(writer, ".zz") || !strings.Contains(writer, eng.RepoMod) {
+					continue // stores made by the harness itself or by library code it drives
+				}
+				bad = append(bad, w)
+			}
+			sort.Strings(bad)
+			c.monitored++
+			if len(bad) > 0 {
+				dir := filepath.Join(verifDir, "replays", c.prop.ID, "shared-state-"+eng.ModelHash(bad))
+				os.MkdirAll(dir, 0755)
+				os.WriteFile(filepath.Join(dir, "monitor.txt"), []byte("stores to package-level state outside sync.Once / a held lock, observed while interpreting the repository's SSA under harness "+r.Harness+":\n"+strings.Join(bad, "\n")+"\n"), 0644)
+				os.WriteFile(filepath.Join(dir, "run.sh"), []byte("#!/bin/sh\ncat \"$(dirname \"$0\")/monitor.txt\"\n"), 0755)
+				c.monitorViol = append(c.monitorViol, fmt.Sprintf("VIOLATION property=%s replay=%s  # unsynchronised write to shared package-level state: %s", c.prop.ID, dir, strings.Join(bad, "; ")))
+			}
+		}
 		c.incon = append(c.incon, rep.Inconclusive...)
 		for m := range exp {
 			c.expected[m] = true
@@ -346,6 +369,11 @@ func finish(c *checkCtx, activeKnown map[string]knownFinding, t0 time.Time) int 
 		if confirmed > 0 {
 			exit = 1
 		}
+	}
+	if len(c.monitorViol) > 0 {
+		lines = append(lines, c.monitorViol...)
+		confirmed += len(c.monitorViol)
+		exit = 1
 	}
 	// 2. known findings: must still reproduce natively
 	var keys []string
